@@ -6,9 +6,10 @@ CONSTANTS
   MaxArgs = 2
   MaxQSize = 4
   MaxStr = 2
+  Kinds = {"shape", "query", "string", "tagvalue", "queryvalue"}
   ExprHeads = TRUE
   GroupQueries = TRUE
-  GroupPipeHead = TRUE
+  GroupPipeHead = "any"
   LexerUnescapes = TRUE
   EscapeTagValues = TRUE
 INVARIANT RoundTrips
